@@ -66,17 +66,24 @@ fn merge_binary_expression(
         None
       }
     }
-    BinaryOperator::LT
-    | BinaryOperator::LE
-    | BinaryOperator::GT
-    | BinaryOperator::GE
-    | BinaryOperator::EQ
-    | BinaryOperator::NE => {
+    BinaryOperator::LT | BinaryOperator::LE | BinaryOperator::GT | BinaryOperator::GE => {
+      if inner.operator == BinaryOperator::PLUS {
+        // (x + c1) < c2 ==> x < c2 - c1 only holds when c2 - c1 is representable.
+        Some(BinaryExpression {
+          operator: outer_operator,
+          e1: inner.e1,
+          e2: outer_const.checked_sub(inner.e2)?,
+        })
+      } else {
+        None
+      }
+    }
+    BinaryOperator::EQ | BinaryOperator::NE => {
       if inner.operator == BinaryOperator::PLUS {
         Some(BinaryExpression {
           operator: outer_operator,
           e1: inner.e1,
-          e2: outer_const - inner.e2,
+          e2: outer_const.wrapping_sub(inner.e2),
         })
       } else {
         None
